@@ -638,13 +638,29 @@ def searchReq (schema : List (VField κ)) (segs : List (Segment κ S)) (r : Req 
 
 /-! ## compaction (`Index::compact`) -/
 
-/-- `Index::compact` with more than one segment: the live documents are read back from the
-doc store and re-ingested into one new segment.  Vector fields are not stored fields, so the
-re-ingested documents carry no vectors (`ensure_compact_safe` only looks at text, keyword
-and numeric fields). -/
-def compactSegs (segs : List (Segment κ S)) : List (Segment κ S) :=
-  if segs.length ≤ 1 then segs
-  else [((segs.flatMap id).filter (fun d => !d.deleted)).map (fun d => { d with vecs := [] })]
+/-- the re-ingest step of `Index::compact`: the live documents are read back from the doc
+store into one new segment.  Vector fields are not stored fields, so a re-ingested document
+carries no vectors. -/
+def reingest (segs : List (Segment κ S)) : List (Segment κ S) :=
+  [((segs.flatMap id).filter (fun d => !d.deleted)).map (fun d => { d with vecs := [] })]
+
+/-- **legacy** (before `fix: refuse to compact an index that has vector fields`):
+`ensure_compact_safe` only looked at text, keyword and numeric fields, so an index with more
+than one segment was re-ingested although its schema had vector fields. -/
+def legacyCompactSegs (segs : List (Segment κ S)) : List (Segment κ S) :=
+  if segs.length ≤ 1 then segs else reingest segs
+
+/-- `Index::compact` as the code exists: nothing to do for at most one segment; otherwise
+`ensure_compact_safe` refuses (`none`, the index is left unchanged) when the schema has a
+vector field, and the segments are re-ingested when it has none. -/
+def compact (schema : List (VField κ)) (segs : List (Segment κ S)) : Option (List (Segment κ S)) :=
+  if segs.length ≤ 1 then some segs
+  else if schema.isEmpty then some (reingest segs)
+  else none
+
+/-- the segments a reader sees after a `compact()` call (unchanged when it was refused) -/
+def afterCompact (schema : List (VField κ)) (segs : List (Segment κ S)) : List (Segment κ S) :=
+  (compact schema segs).getD segs
 
 end
 
